@@ -1030,6 +1030,46 @@ def make_lambda(c):
     return lambda *a, **k: ['lambda', c, list(a), sorted(k.items())]
 
 
+def make_wrapped(c, depth):
+    '''a function under `functools.wraps` decorators which change its result
+    (unit conversion, tagging, retry ...): the decorated callable is what the
+    application hands over, not the function underneath'''
+    def tagging(tag):
+        def deco(f):
+            @functools.wraps(f)
+            def wrapper(*args, **kwargs):
+                return ['wrapped:%s' % tag, f(*args, **kwargs)]
+            return wrapper
+        return deco
+
+    def plain(*args, **kwargs):
+        return ['plain', c, list(args), sorted(kwargs.items())]
+
+    f = plain
+    for i in range(depth):
+        f = tagging('%s.%d' % (c, i))(f)
+    return f
+
+
+def make_cached(c):
+    @functools.lru_cache(maxsize=None)
+    def cached(*args):
+        return ('cached', c, args)
+    return cached
+
+
+class WithStatics(object):
+    K = 'cls-k'
+
+    @staticmethod
+    def smeth(*args, **kwargs):
+        return ['smeth', list(args), sorted(kwargs.items())]
+
+    @classmethod
+    def cmeth(cls, *args, **kwargs):
+        return ['cmeth', cls.K, list(args), sorted(kwargs.items())]
+
+
 def make_lambda_defaults(c):
     return lambda x=c, y=None: ['lambda_d', c, x, y]
 
@@ -1050,7 +1090,8 @@ _BUILTINS = {'len'    : len,
              'strjoin': ', '.join}
 
 FLEX_KINDS = ['mf_flex', 'mf_defaults', 'closure', 'closure2', 'cdef',
-              'lambda', 'obj', 'meth', 'exec_main', 'async']
+              'lambda', 'obj', 'meth', 'exec_main', 'async', 'wrapped',
+              'smeth', 'cmeth']
 FUNC_KINDS = FLEX_KINDS + ['mf_noargs', 'lambda_d', 'partial', 'partial2',
                            'partial_apply', 'builtin']
 FORMS      = ['new3', 'new3list', 'new2', 'newkw', 'new1', 'decor',
@@ -1069,6 +1110,10 @@ def build_func(spec):
     if fk == 'closure2'   : return make_closure2(spec['c'])
     if fk == 'cdef'       : return make_closure_defaults(spec['c'], spec['c2'])
     if fk == 'lambda'     : return make_lambda(spec['c'])
+    if fk == 'wrapped'    : return make_wrapped(spec['c'], spec.get('depth', 1))
+    if fk == 'smeth'      : return WithStatics.smeth
+    if fk == 'cmeth'      : return WithStatics.cmeth
+    if fk == 'cached'     : return make_cached(spec['c'])
     if fk == 'lambda_d'   : return make_lambda_defaults(spec['c'])
     if fk == 'builtin'    : return _BUILTINS[spec['name']]
     if fk == 'exec_main':
@@ -1093,8 +1138,10 @@ def _flex_spec(rng, kinds=None):
     fk   = rng.choice(kinds or FLEX_KINDS)
     spec = {'fk': fk}
     if fk in ('obj', 'meth', 'closure', 'closure2', 'cdef', 'lambda',
-              'exec_main'):
+              'exec_main', 'wrapped'):
         spec['c'] = rng.choice([0, 7, -1, 'c', 'c d', 2.5, None])
+    if fk == 'wrapped':
+        spec['depth'] = rng.choice([1, 1, 2, 3])
     if fk == 'closure':
         spec['lst'] = [rng.randint(0, 9) for _ in range(rng.randint(0, 3))]
     if fk == 'cdef':
